@@ -42,8 +42,15 @@ def geom_class(shape, internal, mask):
 
 
 def decode_key(k):
-    """JSON form -> python key tuple: int stays int, [a, b, c] becomes slice(a, b, c)."""
-    return tuple(slice(*c) if isinstance(c, list) else c for c in k)
+    """JSON form -> python key tuple: int stays int, [a, b, c] becomes slice(a, b, c), {"np": "int64", "v": n} becomes a
+    numpy integer scalar of that type (which is not an `int` instance but is a valid index)."""
+    def one(c):
+        if isinstance(c, list):
+            return slice(*c)
+        if isinstance(c, dict):
+            return getattr(np, c["np"])(c["v"])
+        return c
+    return tuple(one(c) for c in k)
 
 
 def encode_key(key):
@@ -58,9 +65,10 @@ def show_key(key):
 def key_class(key):
     if any(isinstance(c, slice) for c in key):
         return "slice-key"
+    np_ = "np-" if any(isinstance(c, np.integer) for c in key) else ""
     if any(c < 0 for c in key):
-        return "neg-key"
-    return "int-key"
+        return np_ + "neg-key"
+    return np_ + "int-key"
 
 
 # ------------------------------------------------------------------ the model
